@@ -206,6 +206,18 @@ def _stmt(st):
     if isinstance(st, ast.Try):
         for h in st.handlers:
             h.body = _block(h.body)
+    if isinstance(st, ast.If) and len(st.body) == 1 and isinstance(st.test, ast.Compare) and len(st.test.ops) == 1 \
+            and isinstance(st.test.ops[0], ast.Is) and isinstance(st.test.left, ast.Name) \
+            and isinstance(st.test.comparators[0], ast.Constant) and st.test.comparators[0].value is None \
+            and isinstance(st.body[0], ast.Assign) and len(st.body[0].targets) == 1 and isinstance(st.body[0].targets[0], ast.Name) \
+            and st.body[0].targets[0].id == st.test.left.id and isinstance(st.body[0].value, ast.Constant) and st.body[0].value.value is None:
+        # `if x is None: x = None` assigns what is there already
+        if not st.orelse:
+            return []
+        new = ast.If(test=ast.Compare(left=st.test.left, ops=[ast.IsNot()], comparators=st.test.comparators), body=st.orelse, orelse=[])
+        ast.copy_location(new, st)
+        ast.fix_missing_locations(new)
+        return _stmt(new)
     if isinstance(st, ast.If) and not st.orelse and len(st.body) == 1 and isinstance(st.body[0], ast.If) and not st.body[0].orelse:
         # C9: `if a: if b: B` (nothing else in either) is `if a and b: B`
         inner = st.body[0]
@@ -340,6 +352,8 @@ def _expr_helpers(tree):
     out = {}
 
     def consider(key, f, drop_first=False):
+        if f.name in ANCHORED:
+            return
         if f.decorator_list and not all(isinstance(d, ast.Name) and d.id in ('staticmethod', 'classmethod') for d in f.decorator_list):
             return
         if _simple_params(f) is None or _has(f, (ast.Yield, ast.YieldFrom, ast.Await, ast.Global, ast.Nonlocal)):
@@ -405,6 +419,19 @@ class _InlineExprHelpers(ast.NodeTransformer):
 
 
 # -- C6b: statement-level inlining of private helpers ------------------------------------------------
+def _guards_to_else(body):
+    """`if c: ...return`  followed by REST  ->  `if c: ...return  else: REST` (so that every return is a tail)."""
+    out = []
+    for i, st in enumerate(body):
+        if isinstance(st, ast.If) and not st.orelse and _leaves(st.body) and isinstance(st.body[-1], ast.Return) and body[i + 1:]:
+            new = ast.If(test=st.test, body=st.body, orelse=_guards_to_else(body[i + 1:]))
+            ast.copy_location(new, st)
+            out.append(new)
+            return out
+        out.append(st)
+    return out
+
+
 def _tail_returns_only(body):
     """All `return` statements are in tail position (last statement of the body, or of a branch / try part
     that is itself last): then `return E` can be read as `result = E` followed by the end of the block."""
@@ -434,15 +461,21 @@ def _tail_returns_only(body):
     return tail_ok(body, True)
 
 
+# private functions that rules analyse in their own right (anchors): never inlined into their callers
+ANCHORED = {'_name_to_index', '_parse_date_string', '_parse_time_string'}
+
+
 def _stmt_helpers(tree):
     out = {}
 
     def consider(key, f, drop_first=False):
+        if f.name in ANCHORED:
+            return
         if f.decorator_list and not all(isinstance(d, ast.Name) and d.id in ('staticmethod', 'classmethod') for d in f.decorator_list):
             return
         if _simple_params(f) is None or _has(f, (ast.Yield, ast.YieldFrom, ast.Await, ast.Global, ast.Nonlocal, ast.Lambda)):
             return
-        body = _strip_doc(f.body)
+        body = _guards_to_else(copy.deepcopy(_strip_doc(f.body)))
         if not body or len(body) > 25 or not _tail_returns_only(body):
             return
         if any(isinstance(n, ast.Name) and n.id == f.name for n in ast.walk(ast.Module(body=body, type_ignores=[]))):
@@ -504,7 +537,7 @@ def _nested_stmt_helpers(fn):
                 continue
             if _merge_returns(st.body) is not None:
                 continue                      # becomes a lambda (C7)
-            body = _strip_doc(st.body)
+            body = _guards_to_else(copy.deepcopy(_strip_doc(st.body)))
             if not body or len(body) > 25 or not _tail_returns_only(body):
                 continue
             if any(isinstance(n, ast.Name) and n.id == st.name for n in ast.walk(ast.Module(body=body, type_ignores=[]))):
